@@ -130,6 +130,7 @@ func verifHarness_Z2_Corrupt() {
 			at += 1 + 1 + len(msg) + 1 // msg size, type, payload | tagDecl -> tags block size
 		}
 		v := nondetU64("bigsize")
+		verifAssume(v >= 1<<32) // sizes below 128 are the single-byte cases; the point here is sizes that wrap when narrowed or negated
 		var enc []byte
 		for i := 0; i < 9; i++ {
 			enc = append(enc, byte(v>>(7*uint(i)))|0x80)
